@@ -1,4 +1,6 @@
 mod bytes;
+#[cfg(feature = "verif")]
+pub use bytes::{verif_page_from_bytes, verif_page_to_bytes};
 
 /// Metadata for a page in a CompressedVec.
 ///
